@@ -766,6 +766,13 @@ def main(argv):
             r["unlisted"] = unknown
             if args.no_replay:
                 rep = {"reproduced_dev": True, "path": None, "detail": "replay skipped"}
+            elif violations >= 1:
+                # one natively reproduced violation already decides the exit status; further counterexamples are
+                # recorded in evidence but not replayed (each replay costs a solver run plus a native build)
+                r["status"] = "failed_unreplayed"
+                log(f"  further counterexample in {h.full} (not replayed: a violation already reproduced): "
+                    + "; ".join(f"{f['description']}" for f in unknown[:2]))
+                continue
             else:
                 rep = replay_counterexample(h, r, r.get("unwindset") or {})
             r["replay"] = rep
